@@ -311,7 +311,7 @@ func c13LogFirst(c *Ctx) {
 		if site != nil && len(site.Args()) >= 2 {
 			if sl, ok := site.Args()[1].(*ssa.Slice); ok {
 				if a, ok := sl.X.(*ssa.Alloc); ok {
-					if els := arrayLiteral(a); len(els) > 0 && strings.Contains(typeShort(stripIface(els[0]).Type()), "actions.WriteWAL") {
+					if els := arrayLiteral(a); len(els) > 0 && c13IsWriteWAL(els[0]) {
 						okp = true
 					}
 				}
@@ -322,7 +322,7 @@ func c13LogFirst(c *Ctx) {
 		walList := func(v ssa.Value) bool {
 			if sl, ok := v.(*ssa.Slice); ok {
 				if a, ok := sl.X.(*ssa.Alloc); ok {
-					if els := arrayLiteral(a); len(els) > 0 && strings.Contains(typeShort(stripIface(els[0]).Type()), "actions.WriteWAL") {
+					if els := arrayLiteral(a); len(els) > 0 && c13IsWriteWAL(els[0]) {
 						return true
 					}
 				}
@@ -684,4 +684,64 @@ func c13WALEntryByValue(c *Ctx) {
 	if n < 3 {
 		c.und("wal-entry-by-value", "consensus/tendermint", "", fmt.Sprintf("only %d WriteWAL entries found", n))
 	}
+}
+
+// c13IsWriteWAL: v is a WriteWAL action — the literal itself, or the result of a same-package constructor helper whose every
+// return is one.
+func c13IsWriteWAL(v ssa.Value) bool {
+	w := stripIface(v)
+	if strings.Contains(typeShort(w.Type()), "actions.WriteWAL") {
+		return true
+	}
+	call, ok := w.(*ssa.Call)
+	if !ok || call.Call.StaticCallee() == nil || len(call.Call.StaticCallee().Blocks) == 0 {
+		return false
+	}
+	h := call.Call.StaticCallee()
+	if call.Parent() == nil || pkgRelOf(h) != pkgRelOf(call.Parent()) {
+		return false
+	}
+	return c13ReturnsWriteWAL(h, 0)
+}
+
+func c13ReturnsWriteWAL(h *ssa.Function, depth int) bool {
+	if h == nil || len(h.Blocks) == 0 || depth > 3 {
+		return false
+	}
+	nRet, okAll := 0, true
+	allInstrsOne(h, func(in ssa.Instruction) {
+		ret, isRet := in.(*ssa.Return)
+		if !isRet {
+			return
+		}
+		nRet++
+		if len(ret.Results) != 1 {
+			okAll = false
+			return
+		}
+		w := ret.Results[0]
+		for d := 0; d < 6; d++ {
+			switch y := w.(type) {
+			case *ssa.ChangeType:
+				w = y.X
+			case *ssa.ChangeInterface:
+				w = y.X
+			case *ssa.MakeInterface:
+				w = y.X
+			case *ssa.Convert:
+				w = y.X
+			case *ssa.MultiConvert:
+				w = y.X
+			}
+		}
+		if strings.Contains(typeShort(w.Type()), "actions.WriteWAL") {
+			return
+		}
+		// instantiation wrappers forward to the generic body
+		if c2, ok := w.(*ssa.Call); ok && c13ReturnsWriteWAL(c2.Call.StaticCallee(), depth+1) {
+			return
+		}
+		okAll = false
+	})
+	return nRet > 0 && okAll
 }
